@@ -425,3 +425,38 @@ func MustLiterals(fn *ssa.Function, in ssa.Instruction, lit func(Cond) (key stri
 	}
 	return res, n > 0
 }
+
+// Feasible is a cheap infeasibility filter: the path is rejected if two of
+// its branch conditions, with phis resolved along the path, say opposite
+// things about the nil-ness of one value or the truth of one boolean.
+func (p Path) Feasible() bool {
+	type k struct {
+		v   ssa.Value
+		nil bool // key is about nil-ness (else: truth)
+	}
+	known := map[k]bool{}
+	for i := 0; i+1 < len(p.Blocks); i++ {
+		b := p.Blocks[i]
+		ifi, ok := b.Instrs[len(b.Instrs)-1].(*ssa.If)
+		if !ok || b.Succs[0] == b.Succs[1] {
+			continue
+		}
+		taken := p.Blocks[i+1] == b.Succs[0]
+		sub := Path{Blocks: p.Blocks[:i+1]}
+		cd := CondOf(ifi.Cond, taken)
+		var key k
+		var val bool
+		if x, isNil, isN := cd.NilCheck(); isN {
+			key, val = k{sub.Resolve(x), true}, isNil
+		} else if x, truth, isB := cd.Bool(); isB {
+			key, val = k{sub.Resolve(x), false}, truth
+		} else {
+			continue
+		}
+		if old, has := known[key]; has && old != val {
+			return false
+		}
+		known[key] = val
+	}
+	return true
+}
